@@ -82,14 +82,16 @@ def run_directed(chk, w2c2, tag, cc, cflags, rnd):
 def main(chk):
     quick = chk.tier == 'quick'
     w2c2 = env.build_translator('plain')
-    builds = [('gcc-O1', 'gcc', ['-O1']), ('clang-O2', 'clang', ['-O2'])]
+    # an unoptimised build is part of every tier: at -O0 library calls and conversions in the generated C are executed as written
+    # (no folding back into sign-bit operations etc.)
+    builds = [('gcc-O1', 'gcc', ['-O1']), ('clang-O2', 'clang', ['-O2']), ('gcc-O0', 'gcc', ['-O0'])]
     if not quick:
-        builds += [('gcc-O0', 'gcc', ['-O0']), ('gcc-O3', 'gcc', ['-O3']), ('clang-O0', 'clang', ['-O0']), ('gcc-O2-gnu89', 'gcc', ['-O2', '-std=gnu89'])]
+        builds += [('gcc-O3', 'gcc', ['-O3']), ('clang-O0', 'clang', ['-O0']), ('gcc-O2-gnu89', 'gcc', ['-O2', '-std=gnu89']), ('gcc-O2-freestanding', 'gcc', ['-O2', '-ffreestanding'])]
     env.pmap(lambda bl: run_directed(chk, w2c2, bl[0], bl[1], bl[2], env.rng('c02-dir')), builds)
 
     # in-module sweeps: every float / conversion opcode over all 2^32 patterns of a 32-bit operand (thorough) / seeded lattices (quick)
     exhaust.run_sweeps(chk, w2c2, 'C02', [e for e in exhaust.sweep_ops() if e[1] in FLOAT_OPS], [(t, c, f, []) for t, c, f in builds],
-                       slow_builds=('gcc-O0', 'clang-O0'))
+                       slow_builds=(() if quick else ('gcc-O0', 'clang-O0')))
 
     prof = gen.Profile(nan_canon=True, w_trace=0.3, w_control=0.6)
     prof.ops = set(wasm.NUMERIC)
